@@ -42,6 +42,23 @@ Proof.
     rewrite He, Hm. now rewrite IH.
 Qed.
 
+(* ------------------------------------------------------------------ *)
+(* the dispatch columns of a rendered record, from the shape of its layout *)
+
+(* a layout starting with a one-byte literal renders lines of that record type *)
+Lemma rendered_first_byte L r c rest : l_segs L = SLit [c] :: rest -> rtype (render L r) = c.
+Proof. intros E. unfold render. rewrite E. reflexivity. Qed.
+
+(* ... followed by a raw field of two bytes: byte columns 1..3 are that field (the addenda type code) *)
+Lemma rendered_type_code L r c f rest :
+  l_segs L = SLit [c] :: SRaw f :: rest -> length (gets r f) = 2 ->
+  bsub (render L r) (fst tag_cols) (snd tag_cols) = gets r f.
+Proof.
+  intros E Hl. unfold render. rewrite E. cbn [map concat render_seg app fst snd tag_cols]. unfold bsub.
+  cbn [skipn Nat.sub]. rewrite <- app_nil_r. rewrite firstn_app, <- Hl, Nat.sub_diag, firstn_all. cbn [firstn].
+  now rewrite !app_nil_r.
+Qed.
+
 Section Facts.
 Variable T : list layout.
 Hypothesis T_ok : forallb layout_ok T = true.
